@@ -2,6 +2,7 @@ import Pi2.MM.AstThm
 import Pi2.MM.SliceThm
 import Pi2.MM.SliceVerify
 import Pi2.MM.SliceVerifyEx
+import Pi2.MM.SliceTie
 /-!
 # C17 — Metamath databases survive printing, re-parsing and slicing
 
@@ -28,6 +29,14 @@ place in a slice", "keep an essential hypothesis stated outside a block …"), b
   were found (top-level `$d` moved in front of earlier assertions; top-level `$e` dropped) and repaired upstream; the
   two former counterexamples are kept as regression facts (`cex_disj_now_verifies`, `cex_top_ess_now_verifies`).
   The check (`vlib/props/c17.py`) still runs an independent verifier on every generated slice.
+* `slicer_text_is_the_model`: the slicer as TRANSLATED from the text of `metamath_extract_slice.py` on every run
+  (`vlib/transslice.py` → `Pi2/Gen/Slicer.lean`: `get_constants`, `statements_get_constants`,
+  `deconstruct_compressed_proof`, `supporting_database_for_provable`, `match_axiom`, `deconstruct_provable`,
+  `construct_axiom`, `slice_database`, statement by statement) computes exactly the slices of the hand-written model
+  (`Pi2/MM/SliceTie.lean`), for databases whose labels / proof tokens / `syntax_deps` entries contain no blank
+  (`SliceTie.tokensOk`: they are tokens, so none is one of the dictionary keys `'$d <n>'` of the top-level `$d`
+  statements) and with `fuel ≥ stmtsSize db` for the `while` loop of `match_axiom`.  Hence `translated_slices_verify`:
+  the slices computed by the translated slicer verify.
 -/
 namespace C17
 open MM
@@ -159,6 +168,51 @@ theorem cex_top_ess_now_verifies :
   ⟨SliceEx.cexEssDb_wf, SliceEx.cexEssDb_verifies.1, SliceEx.cexEssDb_sliced, SliceEx.cex_top_ess_now_verifies,
     SliceEx.cex_top_ess_old_slice_fails⟩
 
+/-- **the source text of the slicer is the model**: `Gen.Slicer.slice_database` is regenerated from
+`metamath_extract_slice.py` on every run (generator → the list of its values; `none` = raises); `Gen.Slicer.translated`
+says that every statement of the eight functions was recognised -/
+theorem slicer_text_is_the_model (fuel : Nat) (db : MDb) (deps : List (String × List String)) (incl excl : List String)
+    (hfuel : stmtsSize db ≤ fuel) (htok : SliceTie.tokensOk db deps = true) :
+    Gen.Slicer.translated = true ∧
+    Gen.Slicer.slice_database fuel db deps incl excl = sliceDatabase db deps incl excl :=
+  ⟨SliceTie.translated, SliceTie.slice_database_eq_of_tokensOk fuel db deps incl excl hfuel htok⟩
+
+/-- the same under the weakest hypothesis the proof needs (`SliceTie.KeysOk`: the labels the slicer files statements under
+and the labels it looks up are not of the form `$d <n>`) -/
+theorem slicer_text_is_the_model_keys (fuel : Nat) (db : MDb) (deps : List (String × List String))
+    (incl excl : List String) (hfuel : stmtsSize db ≤ fuel) (hk : SliceTie.KeysOk db deps) :
+    Gen.Slicer.slice_database fuel db deps incl excl = sliceDatabase db deps incl excl :=
+  SliceTie.slice_database_eq fuel db deps incl excl hfuel hk
+
+/-- the function that cuts one slice, on the Python dictionary (string keys, `'$d <n>'` for the `$d` statements) the
+model's ordered dictionary stands for -/
+theorem supporting_database_text_is_the_model (cut : Cut) (deps : List (String × List String)) (l : String)
+    (ts : List MTerm) (pf : List String) (ess : List MStmt) (hc : SliceTie.CutOk cut)
+    (hlab : ∀ labels, proofLabels pf = some labels → ∀ x ∈ labels, SliceTie.notDKey x)
+    (hdeps : ∀ k v, (k, v) ∈ deps → ∀ x ∈ v, SliceTie.notDKey x) :
+    Gen.Slicer.supporting_database_for_provable (SliceTie.ofCut cut) deps (.prov l ts pf) ess =
+      supportingDb cut deps l ts pf ess :=
+  SliceTie.supporting_database_eq cut deps l ts pf ess hc hlab hdeps
+
+/-- **the slices computed by the translated slicer verify** (`slicer_text_is_the_model` + `slice_verifies`) -/
+theorem translated_slices_verify {fuel : Nat} {db : MDb} {deps : List (String × List String)} {incl excl : List String}
+    {out : List (String × MDb)} {l : String} {sl : MDb} (hwf : WellFormedDb db)
+    (hfuel : stmtsSize db ≤ fuel) (htok : SliceTie.tokensOk db deps = true)
+    (h : Gen.Slicer.slice_database fuel db deps incl excl = some out) (hm : (l, sl) ∈ out)
+    (hv : verifyLemma db l = true) : verifyLemma sl l = true := by
+  rw [SliceTie.slice_database_eq_of_tokensOk fuel db deps incl excl hfuel htok] at h
+  exact MM.slice_verifies hwf h hm hv
+
+/-- non-vacuity: the example database of `slice_verifies_nonvacuous` meets the hypotheses, and the translated slicer
+produces its two slices -/
+theorem translated_slicer_nonvacuous :
+    SliceTie.tokensOk SliceEx.exDb [] = true ∧
+    Gen.Slicer.slice_database (stmtsSize SliceEx.exDb) SliceEx.exDb [] ["th1", "th2"] [] =
+      some [("th1", SliceEx.exSl1), ("th2", SliceEx.exSl2)] := by
+  refine ⟨by decide, ?_⟩
+  rw [SliceTie.slice_database_eq_of_tokensOk _ _ _ _ _ (Nat.le_refl _) (by decide)]
+  exact SliceEx.exDb_slices
+
 end C17
 
 #print axioms C17.slice_verifies
@@ -167,3 +221,8 @@ end C17
 #print axioms C17.slice_labels_present
 #print axioms C17.cex_disj_now_verifies
 #print axioms C17.cex_top_ess_now_verifies
+#print axioms C17.slicer_text_is_the_model
+#print axioms C17.slicer_text_is_the_model_keys
+#print axioms C17.supporting_database_text_is_the_model
+#print axioms C17.translated_slices_verify
+#print axioms C17.translated_slicer_nonvacuous
